@@ -79,6 +79,18 @@ class CallSite:
         return "Call(%s @%s:%d bb%d)" % (self.name, self.body.file, self.ln, self.bb)
 
 
+def table_value(facts, k):
+    """the decoded value of a table kept in data behind a constant operand: given inline (`table`), or the initialiser of the
+    static / named constant it refers to; None when the constant is no such table."""
+    if "table" in k:
+        return k["table"]
+    if "static" in k:
+        return (facts.statics.get(k["static"]) or {}).get("val")
+    if k.get("def"):
+        return (facts.consts.get(k["def"]) or {}).get("val")
+    return None
+
+
 def l_not_in(seen, l):
     return not seen or l not in seen
 
@@ -361,12 +373,38 @@ class Body:
                     k = o.get("k")
                     if k and "fn" in k:
                         yield (k.get("res") or k["fn"]), k.get("loc", False), bi
+                    for nm in self._table_fns(k):
+                        yield nm, True, bi
             t = b["t"]
             if t["k"] == "call":
                 for o in t["args"]:
                     k = o.get("k")
                     if k and "fn" in k:
                         yield (k.get("res") or k["fn"]), k.get("loc", False), bi
+                    for nm in self._table_fns(k):
+                        yield nm, True, bi
+
+    def _table_fns(self, k):
+        """functions stored in a table kept in data that this constant operand denotes (a const / static array of tuples
+        holding function pointers): whoever mentions the table may call them."""
+        if not k:
+            return []
+        v = table_value(self.facts, k)
+        if v is None:
+            return []
+        out = []
+
+        def walk(x):
+            if isinstance(x, dict):
+                if "fn" in x and isinstance(x["fn"], str):
+                    out.append(x["fn"])
+                for y in x.values():
+                    walk(y)
+            elif isinstance(x, list):
+                for y in x:
+                    walk(y)
+        walk(v)
+        return out
 
     # ---- provenance terms
     def sname(self, o, depth=6):
@@ -798,6 +836,7 @@ class Facts:
         self._canon = None
         self._alias = {}
         self.consts = {c["name"]: c for c in self.d["consts"]}
+        self.statics = {c["name"]: c for c in self.d.get("statics", [])}
         self.adts = {a["name"]: a for a in self.d["adts"]}
         self.impls = self.d["impls"]
         self._cg = None
